@@ -9,11 +9,12 @@ FEAT=""
 grep -q "weak" yrs/tests/seed_demo.rs 2>/dev/null && FEAT="--features weak"
 echo "== demo WITH change" >> $LOG
 cargo test -p yrs --offline $FEAT --test seed_demo 2>&1 | grep -E "^test |test result" >> $LOG
-git diff -- . ':!patch.diff' > /tmp/$(basename $WT).current.diff
-git stash push -q -- yrs/src yffi/src 2>/dev/null
+# (no git stash: the stash is shared by all worktrees of a repository)
+git diff -- yrs/src yffi/src > $WT/.current.diff
+git apply -R $WT/.current.diff
 echo "== demo WITHOUT change" >> $LOG
 cargo test -p yrs --offline $FEAT --test seed_demo 2>&1 | grep -E "^test |test result" >> $LOG
-git stash pop -q
+git apply $WT/.current.diff
 echo "== suite WITH change" >> $LOG
 cargo test -p yrs --offline --features weak --lib 2>&1 | grep -E "FAILED|failed|test result" >> $LOG
 cargo test -p yrs --offline --features weak --doc 2>&1 | grep -E "FAILED|failed|test result" >> $LOG
